@@ -906,6 +906,14 @@ func (ex *Executor) finishUnit(st *State, fr *Frame, res []Val, ins ssa.Instruct
 		ord = returnOrdinal(r)
 	}
 	ex.runAnchors(st, fr, "return", "", ord, "after")
+	first := len(ex.Obls)
+	nev := len(ex.segmentEvents(st))
+	exitHeap := copyHeap(st.heap)
+	defer func() {
+		for _, o := range ex.Obls[first:] {
+			o.Rets, o.Heap, o.AtExit, o.NEvents = res, exitHeap, true, nev
+		}
+	}()
 	env := ex.envFor(st, fr)
 	env.bindResults(fr.fn, res)
 	for i, c := range spec.Ensures {
